@@ -25,7 +25,7 @@ class C07(E1Check):
         return super().configs() + extra
 
     def budget(self):
-        return 600 if self.tier == "quick" else 2400
+        return 600 if self.tier == "quick" else 1200
 
     def op_list(self, cfg):
         ops = std_ops(self.alpha, cfg, self.tier)
